@@ -504,7 +504,7 @@ func run(r *core.Run) int {
 		}
 	}
 	localSignerCases(r)
-	core.Parallel(len(cases), func(i int) {
+	r.Parallel(len(cases), func(i int) {
 		c := cases[i]
 		execute(r, c)
 		if len(c.Changes) > 0 && changeByName(c.Changes[0]) != nil {
